@@ -71,4 +71,10 @@ Lemma tupd_same f t x : tupd f t x t = x.
 Proof. unfold tupd. now rewrite Nat.eqb_refl. Qed.
 Lemma tupd_other f t x u : u <> t -> tupd f t x u = f u.
 Proof. unfold tupd. intros H. destruct (Nat.eqb_spec u t); congruence. Qed.
+Fixpoint run (cs : list choice) (s : state) : state * list event :=
+  match cs with
+  | [] => (s, [])
+  | c :: cs' => let '(s1, e) := exec c s in let '(s2, es) := run cs' s1 in
+                (s2, match e with Some x => x :: es | None => es end)
+  end.
 End MACH.
